@@ -45,6 +45,10 @@ def sites(fn):
         if isinstance(node, ast.Call) and len(node.args) >= 2 and not any(isinstance(a, ast.Starred) for a in node.args):
             if ast.dump(node.args[0]) != ast.dump(node.args[1]):
                 out.append(("argswap", path))
+        if isinstance(node, ast.Call) and len(node.args) == 1 and not node.keywords and not isinstance(node.args[0], ast.Starred) and isinstance(node.func, ast.Name):
+            out.append(("unwrap", path))  # f(x) -> x   (deepcopy(x) -> x, simplify(x) -> x, int(x) -> x)
+        if isinstance(node, ast.Call) and not node.args and not node.keywords and isinstance(node.func, ast.Attribute):
+            out.append(("unrecv", path))  # x.copy() -> x
         for fld in ("body", "orelse", "finalbody"):
             lst = getattr(node, fld, None)
             if isinstance(lst, list) and lst and isinstance(lst[0], ast.stmt):
@@ -57,6 +61,8 @@ def sites(fn):
                         out.append(("del", path + [(fld, i)]))
                     if i + 1 < len(lst) and ast.dump(lst[i]) != ast.dump(lst[i + 1]):
                         out.append(("swap", path + [(fld, i)]))
+                    if i + 1 < len(lst) and isinstance(lst[i], ast.Assign) and isinstance(lst[i + 1], ast.Assign) and ast.dump(lst[i].value) == ast.dump(lst[i + 1].value) and not isinstance(lst[i].value, (ast.Constant, ast.Name)):
+                        out.append(("chain", path + [(fld, i)]))  # a = f(); b = f()  ->  a = b = f()
         for fld, val in ast.iter_fields(node):
             if fld in ("annotation", "returns", "decorator_list"):
                 continue  # annotations have no run-time effect
@@ -97,10 +103,16 @@ def get(node, path):
 
 def mutate(fn, kind, path, locs, rnd):
     m = copy.deepcopy(fn)
-    if kind in ("del", "swap"):
+    if kind in ("del", "swap", "chain"):
         parent = get(m, path[:-1])
         fld, i = path[-1]
         lst = getattr(parent, fld)
+        if kind == "chain":
+            desc = f"chain `{ast.unparse(lst[i])[:60]}` + `{ast.unparse(lst[i+1])[:60]}`"
+            lst[i].targets = [*lst[i].targets, *lst[i + 1].targets]
+            del lst[i + 1]
+            ast.fix_missing_locations(m)
+            return m, desc
         if kind == "del":
             desc = f"delete `{ast.unparse(lst[i])[:70]}`"
             del lst[i]
@@ -139,6 +151,16 @@ def mutate(fn, kind, path, locs, rnd):
         return m, f"drop not: `{before}`{ctx}"
     elif kind == "argswap":
         node.args[0], node.args[1] = node.args[1], node.args[0]
+    elif kind in ("unwrap", "unrecv"):
+        new = node.args[0] if kind == "unwrap" else node.func.value
+        parent = get(m, path[:-1])
+        fld, i = path[-1]
+        if i is None:
+            setattr(parent, fld, new)
+        else:
+            getattr(parent, fld)[i] = new
+        ast.fix_missing_locations(m)
+        return m, f"{kind}: `{before}` -> `{ast.unparse(new)[:60]}`{ctx}"
     elif kind == "name":
         others = [x for x in locs if x != node.id]
         node.id = rnd.choice(others)
